@@ -116,6 +116,39 @@ theorem hSet_only (h : Headers) (n v w : Str) (hm : (normalize n, w) ∈ hAll (h
     · simp at hm
       exact hm
 
+/-! ### `HTTPHeaders.add` keeps what is there and appends the new value -/
+
+theorem hAdd_mem {h h' : Headers} {n v : Str} (hs : hAdd h n v = .ok h') :
+    (normalize n, v) ∈ hAll h' ∧ ∀ q ∈ hAll h, q ∈ hAll h' := by
+  simp only [hAdd] at hs
+  split at hs
+  · cases hs
+  · split at hs
+    · cases hs
+    · split at hs
+      · rename_i hany
+        injection hs with hs
+        subst hs
+        obtain ⟨p, hp, hpe⟩ := List.any_eq_true.mp hany
+        constructor
+        · simp only [hAll, List.mem_flatMap, List.mem_map]
+          exact ⟨(normalize n, p.2 ++ [v]), ⟨p, hp, by simp [hpe]⟩, v, by simp, rfl⟩
+        · intro q hq
+          simp only [hAll, List.mem_flatMap, List.mem_map] at hq ⊢
+          obtain ⟨r, hr, x, hx, rfl⟩ := hq
+          by_cases hre : (r.1 == normalize n) = true
+          · refine ⟨(normalize n, r.2 ++ [v]), ⟨r, hr, by simp [hre]⟩, x, by simp [hx], ?_⟩
+            simp only [beq_iff_eq] at hre
+            simp [hre]
+          · exact ⟨r, ⟨r, hr, by simp [hre]⟩, x, hx, rfl⟩
+      · injection hs with hs
+        subst hs
+        constructor
+        · simp [hAll]
+        · intro q hq
+          simp only [hAll, List.flatMap_append, List.mem_append]
+          exact Or.inl hq
+
 /-! ### header names: tokens stay tokens under `_normalize_header`; a token-named line parses back -/
 
 theorem isTchar_lt {c : Nat} (h : isTchar c = true) : c < 128 := by
@@ -363,5 +396,193 @@ theorem parseFields_lines (l : List (Str × Str)) (hall : ∀ p ∈ l, isToken p
     have h2 := ih (fun q hq => hall q (by simp [hq]))
     simp only [List.map_cons, List.mapM_cons, h1, h2]
     rfl
+
+/-! ### first line of defence: every header VALUE a `RequestHandler` stores passed `_VALID_HEADER_CHARS` -/
+
+open TornadoModel.C25 (validHeaderChars isValidHeaderChar) in
+def ValsOk (h : Headers) : Prop := ∀ p ∈ h, ∀ v ∈ p.2, validHeaderChars v = true
+
+open TornadoModel.C25 (validHeaderChars isValidHeaderChar)
+
+theorem decOfNat_valid (n : Nat) : validHeaderChars (C25.decOfNat n) = true := by
+  simp only [validHeaderChars, C25.decOfNat, List.all_eq_true, List.mem_map]
+  rintro c ⟨ch, hch, rfl⟩
+  have hd : ch.isDigit = true := by
+    have : ch ∈ Nat.toDigits 10 n := by
+      have h := @Nat.toList_repr n
+      change ch ∈ (Nat.repr n).toList at hch
+      rwa [h] at hch
+    exact Nat.isDigit_of_mem_toDigits (by decide) (by decide) this
+  simp only [Char.isDigit, Bool.and_eq_true, decide_eq_true_eq] at hd
+  have h1 : 48 ≤ ch.toNat := by have := hd.1; exact UInt32.le_iff_toNat_le.mp this
+  have h2 : ch.toNat ≤ 57 := by have := hd.2; exact UInt32.le_iff_toNat_le.mp this
+  simp only [isValidHeaderChar, Bool.or_eq_true, beq_iff_eq, Bool.and_eq_true, decide_eq_true_eq]
+  omega
+
+theorem decOfInt_valid (i : Int) : validHeaderChars (C25.decOfInt i) = true := by
+  unfold C25.decOfInt
+  split
+  · have := decOfNat_valid i.natAbs
+    simp only [validHeaderChars, List.all_cons, Bool.and_eq_true] at this ⊢
+    exact ⟨by decide, this⟩
+  · exact decOfNat_valid _
+
+theorem convert_valid {v : HVal} {s : Str} (h : convert v = .ok s) : validHeaderChars s = true := by
+  cases v with
+  | str t =>
+    simp only [convert] at h
+    split at h
+    · injection h with h; subst h; assumption
+    · cases h
+  | bytes t =>
+    simp only [convert] at h
+    split at h
+    · injection h with h; subst h; assumption
+    · cases h
+  | int i =>
+    simp only [convert] at h
+    injection h with h
+    subst h
+    exact decOfInt_valid i
+
+theorem valsOk_hSet {h : Headers} (n : Str) {v : Str} (hh : ValsOk h) (hv : validHeaderChars v = true) :
+    ValsOk (hSet h n v) := by
+  intro p hp w hw
+  simp only [hSet] at hp
+  split at hp
+  · obtain ⟨q, hq, rfl⟩ := List.mem_map.mp hp
+    split at hw
+    · simp only [List.mem_cons, List.not_mem_nil, or_false] at hw
+      subst hw
+      exact hv
+    · exact hh q hq w hw
+  · simp only [List.mem_append, List.mem_cons, List.not_mem_nil, or_false] at hp
+    rcases hp with hp | rfl
+    · exact hh p hp w hw
+    · simp only [List.mem_cons, List.not_mem_nil, or_false] at hw
+      subst hw
+      exact hv
+
+/-- appending one value under a name (the dict update shared by `add()` and the cookie loop of `flush`) -/
+theorem valsOk_append {h : Headers} (n : Str) {v : Str} (hh : ValsOk h) (hv : validHeaderChars v = true) :
+    ValsOk (if h.any (·.1 == n) then h.map (fun p => if p.1 == n then (n, p.2 ++ [v]) else p) else h ++ [(n, [v])]) := by
+  intro p hp w hw
+  split at hp
+  · obtain ⟨q, hq, rfl⟩ := List.mem_map.mp hp
+    split at hw
+    · simp only [List.mem_append, List.mem_cons, List.not_mem_nil, or_false] at hw
+      rcases hw with hw | rfl
+      · exact hh q hq w hw
+      · exact hv
+    · exact hh q hq w hw
+  · simp only [List.mem_append, List.mem_cons, List.not_mem_nil, or_false] at hp
+    rcases hp with hp | rfl
+    · exact hh p hp w hw
+    · simp only [List.mem_cons, List.not_mem_nil, or_false] at hw
+      subst hw
+      exact hv
+
+theorem valsOk_hAdd {h h' : Headers} {n v : Str} (hh : ValsOk h) (hv : validHeaderChars v = true)
+    (hs : hAdd h n v = .ok h') : ValsOk h' := by
+  simp only [hAdd] at hs
+  split at hs
+  · cases hs
+  · split at hs
+    · cases hs
+    · have := valsOk_append (normalize n) hh hv
+      split at hs
+      · rename_i hany
+        injection hs with hs
+        subst hs
+        simpa [hany] using this
+      · rename_i hany
+        injection hs with hs
+        subst hs
+        simpa [hany] using this
+
+theorem valsOk_hDel {h : Headers} (n : Str) (hh : ValsOk h) : ValsOk (hDel h n) :=
+  fun p hp => hh p (List.mem_filter.mp hp).1
+
+theorem flushCookies_valid {j : C25.Jar} {cs : List Str} (h : C25.flushCookies j = .ok cs) :
+    ∀ s ∈ cs, validHeaderChars s = true := by
+  induction j generalizing cs with
+  | nil =>
+    simp only [C25.flushCookies] at h
+    injection h with h
+    subst h
+    simp
+  | cons m rest ih =>
+    simp only [C25.flushCookies] at h
+    split at h
+    · cases h
+    · rename_i hv
+      split at h
+      · cases h
+      · split at h
+        · rename_i l hl
+          injection h with h
+          subst h
+          intro s hs
+          simp only [List.mem_cons] at hs
+          rcases hs with rfl | hs
+          · simpa using hv
+          · exact ih hl s hs
+        · cases h
+
+theorem valsOk_addCookieLines {cs : List Str} {h : Headers} (hh : ValsOk h)
+    (hc : ∀ s ∈ cs, validHeaderChars s = true) : ValsOk (addCookieLines h cs) := by
+  induction cs generalizing h with
+  | nil => exact hh
+  | cons s rest ih =>
+    simp only [addCookieLines]
+    exact ih (valsOk_append _ hh (hc s (by simp))) (fun x hx => hc x (by simp [hx]))
+
+theorem valsOk_finishPrep {st : St} (hh : ValsOk st.headers) : ValsOk (finishPrep st).headers := by
+  simp only [finishPrep]
+  split
+  · exact valsOk_hDel _ (valsOk_hDel _ (valsOk_hDel _ hh))
+  · split
+    · exact hh
+    · exact valsOk_hSet _ hh (by decide)
+
+theorem valsOk_setHeader {st : St} (n : Str) (v : HVal) (hh : ValsOk st.headers) :
+    ValsOk (setHeader st n v).1.headers := by
+  simp only [setHeader]
+  split
+  · rename_i s hs
+    exact valsOk_hSet n hh (convert_valid hs)
+  · exact hh
+
+theorem valsOk_step {st : St} (op : Op) (hh : ValsOk st.headers) : ValsOk (step st op).1.headers := by
+  cases op with
+  | setHeader n v => exact valsOk_setHeader n v hh
+  | addHeader n v =>
+    simp only [step, addHeader]
+    split
+    · exact hh
+    · rename_i s hs
+      split
+      · rename_i h' hk
+        exact valsOk_hAdd hh (convert_valid hs) hk
+      · exact hh
+  | clearHeader n => exact valsOk_hDel n hh
+  | setStatus c r => exact hh
+  | setCookie a => exact hh
+  | redirect url perm =>
+    simp only [step]
+    split
+    · exact hh
+    · exact valsOk_setHeader (st := setStatus st (if perm then 301 else 302) none) _ _ hh
+
+theorem valsOk_run {st : St} (ops : List Op) (hh : ValsOk st.headers) : ValsOk (run st ops).1.headers := by
+  induction ops generalizing st with
+  | nil => exact hh
+  | cons op rest ih => exact ih (valsOk_step op hh)
+
+theorem valid_no_ctl {s : Str} (h : validHeaderChars s = true) : ∀ c ∈ s, c ≠ 13 ∧ c ≠ 10 ∧ c ≠ 0 := by
+  intro c hc
+  have := List.all_eq_true.mp h c hc
+  simp only [isValidHeaderChar, Bool.or_eq_true, beq_iff_eq, Bool.and_eq_true, decide_eq_true_eq] at this
+  omega
 
 end TornadoModel.C07
